@@ -205,9 +205,16 @@ fn lat_member_attrs(t: &mut Tape, tys: &[&str], pool: &[&'static str], child_pat
                 if !child_paths.is_empty() {
                     let _ = write!(s, "#[child({})] ", t.pick(child_paths));
                     labels.push("lattice:child".into());
+                    labels.push("child:path".into());
                 }
             }
-            _ => s.push_str(*t.pick(&["#[parent] ", "#[parent(x, [map(y)] z)] ", "#[parent(Foo| 0, 1)] "])),
+            _ => {
+                let p = *t.pick(&["#[parent] ", "#[parent(x, [map(y)] z)] ", "#[parent(Foo| 0, 1)] "]);
+                if p == "#[parent] " {
+                    labels.push("parent:bare".into());
+                }
+                s.push_str(p);
+            }
         }
     }
     s
@@ -228,6 +235,12 @@ pub fn gen_lattice(t: &mut Tape) -> (String, Vec<String>) {
         let fallible = name.contains("try_");
         any_fallible_ie |= fallible && name.ends_with("into_existing");
         let tail = if t.chance(1, 10) { " | return make(@)" } else if t.chance(1, 10) { " | ..Default::default()" } else { "" };
+        if !hint.is_empty() {
+            labels.push(format!("hint:{}", hint.trim()));
+        }
+        if tail.contains("..") {
+            labels.push("param:update".into());
+        }
         let _ = write!(s, "#[{}({}{}{}{})] ", name, tys[i], hint, if fallible { ", Err" } else { "" }, tail);
     }
     if any_fallible_ie {
@@ -288,6 +301,7 @@ pub fn gen_lattice(t: &mut Tape) -> (String, Vec<String>) {
                         let _ = write!(s, "V{}, ", v);
                     }
                     1 => {
+                        labels.push("variant:Tuple".into());
                         let _ = write!(s, "V{}(", v);
                         for _ in 0..nf {
                             let attrs = lat_member_attrs(t, &tys, &pool, &[], &mut labels);
@@ -296,6 +310,7 @@ pub fn gen_lattice(t: &mut Tape) -> (String, Vec<String>) {
                         s.push_str("), ");
                     }
                     _ => {
+                        labels.push("variant:Named".into());
                         let _ = write!(s, "V{} {{ ", v);
                         for i in 0..nf {
                             let attrs = lat_member_attrs(t, &tys, &pool, &[], &mut labels);
